@@ -321,6 +321,14 @@ func c02build(c *fw.Ctx, idx int) c02case {
 	if cs.Class == "refs-mutual-cycle" {
 		cs.Files["/cyc.jet"] = d.L + `extends "/t.jet"` + d.R
 	}
+	if cs.MustErr && strings.HasPrefix(cs.Class, "struct-") && r.Intn(3) == 0 {
+		// the broken source is the first candidate for the name asked for ("/t" + ""), and a loadable file sits under a later
+		// candidate ("/t.jet"): the mistake in the file that was found is reported, not papered over by the sibling
+		cs.Class += "-beside-loadable-candidate"
+		cs.Entry, cs.Name = "get", "/t"
+		cs.Files["/t"] = cs.Src
+		cs.Files["/t.jet"] = "loadable sibling"
+	}
 	return cs
 }
 
